@@ -44,6 +44,24 @@ def _dataset(rng: random.Random, n_traces: int, tb: int) -> tuple[list[dict], di
             "job_name": NAMES[2], "job_id": f"tr-{tag}", "event_type": "heartbeat-" + tag,
             "event_id": f"tr-{tag}.0", "start_timestamp": t0, "end_timestamp": t0,
             "application_name": "app", "parent_event_id": None}]})
+    # traces placed relative to the time window [lo + buffer, hi - buffer], each with a shape
+    # of its own: spanning the whole window with both end points (and all children) in the
+    # buffer zones, and reaching into the window from either buffer zone
+    z = max(tb, 1) * store.MIN
+    for tag, (r0, r1), kids in (
+            ("straddle", (lo + z // 3, hi - z // 3),
+             [(lo + z // 3, lo + z // 2), (hi - z // 2, hi - z // 3)]),
+            ("reach-in-start", (lo + z // 3, lo + 2 * z), [(lo + z // 3, lo + z // 2)]),
+            ("reach-in-end", (hi - 2 * z, hi - z // 3), [(hi - z // 2, hi - z // 3)])):
+        jid = f"tr-{tag}"
+        sp = [{"job_name": NAMES[0], "job_id": jid, "event_type": f"{tag}-root",
+               "event_id": f"{jid}.0", "start_timestamp": r0, "end_timestamp": r1,
+               "application_name": "app", "parent_event_id": None}]
+        for k, (c0, c1) in enumerate(kids):
+            sp.append({"job_name": NAMES[0], "job_id": jid, "event_type": f"{tag}-kid{k}",
+                       "event_id": f"{jid}.{k + 1}", "start_timestamp": c0, "end_timestamp": c1,
+                       "application_name": "app", "parent_event_id": f"{jid}.0"})
+        traces.append({"job_id": jid, "name": NAMES[0], "kind": "complete", "spans": sp})
     tree = store.rand_tree(rng, 3, TYPES)
     sp = store.materialise(tree, "tr-dangling", NAMES[1], base + total // 2, rng, 10**6)
     sp[-1]["parent_event_id"] = "tr-dangling.missing"
@@ -239,7 +257,8 @@ def main(tier: str, seed: int) -> int:
              "every history of length <=2 (thorough: every length-3 and 220 sampled length-4) "
              "over flags {ingest,-ni} x {-ug} x {-se}, first run always ingesting; each history "
              "on its own seeded dataset (complete, dangling-parent, mixed-name, out-of-window "
-             "traces, repeated shapes, duplicated spans across files), time_buffer in {0,1,2}, "
+             "traces, traces spanning the whole window from buffer zone to buffer zone or reaching "
+             "into it from one, repeated shapes, duplicated spans across files), time_buffer in {0,1,2}, "
              "batch_size in {1,2,3,1000}, plus two histories on data sets of > 1000 spans with the "
              "default batch size; the first-run answer for each flag set is taken from "
              "fresh database files. distinct = distinct (history flags, dataset seed)")
